@@ -91,6 +91,7 @@ fn fault_opts() -> GraphOpts {
         absolute: false,
         decoys: false,
         mark_all: false,
+        sized: true,
     }
 }
 
